@@ -20,6 +20,7 @@ import math
 import os
 import random
 import shutil
+import zlib
 
 import numpy as np
 
@@ -27,12 +28,14 @@ from . import common, realeval
 from .common import Check, MachineryError, require_model_ok, run_tlc, run_tlc_sharded
 
 GRID_INVS = ["InvWriteOnce", "InvFlatIndexIsBijection", "InvXSlowest", "InvSlotIsUnflat", "InvVisitOrder"]
-BLUR_INVS = ["InvWriteOnce", "InvFlatIndexIsBijection", "InvXSlowest", "InvSlotIsUnflat", "InvImagesAreMinImage"]
+BLUR_INVS = ["InvWriteOnce", "InvFlatIndexIsBijection", "InvXSlowest", "InvSlotIsUnflat", "InvImagesAreMinImage",
+             "InvGridSpansFrameBounds"]
 SPATIAL_INVS = ["InvCursorFollowsFrames", "InvSpatialMeanDefinition", "InvSpatialConvex", "InvSpatialConstant",
-                "InvNoSelfCountedTwice"]
+                "InvNoSelfCountedTwice", "InvRowOrderIrrelevant", "InvBoolIsFraction", "InvNmaxAboveCounts"]
 WINDOW_INVS = ["InvWindowLenIsFloor", "InvExactMultiple", "InvWindowComplete", "InvWindowCentre",
-               "InvWindowMeanDefinition", "InvRowsAtMostComplete"]
-K = 840            # lcm(1..8): averages over at most 8 integers that are multiples of K are integers
+               "InvWindowMeanDefinition", "InvRowsAtMostComplete", "InvWindowMeanIsRational"]
+K = 840            # averages over n integers that are multiples of K are integers whenever n divides 840 (every n <= 8)
+DIVISORS = [n for n in range(1, 841) if K % n == 0]
 HEADER = "id     cn     neighborlist\n"
 
 
@@ -56,12 +59,54 @@ def snapshots(frames):
 
 
 def write_neighbor_file(path, frames):
-    """frames[f][i] = listed (1-based) ids of particle i+1."""
+    """frames[f][k] = [id, n1, n2, ...]: the k-th row of frame f as the specification states it
+    (CoarseGrain!CgRows: rows in any order, 1-based ids)."""
     with open(path, "w") as f:
         for fr in frames:
             f.write(HEADER)
-            for i, row in enumerate(fr):
-                f.write(" ".join([str(i + 1), str(len(row))] + [str(j) for j in row]) + "\n")
+            for row in fr:
+                f.write(" ".join([str(row[0]), str(len(row) - 1)] + [str(j) for j in row[1:]]) + "\n")
+
+
+def rows_of(lists, order=None):
+    """the rows of one frame for the abstract lists (lists[i] = listed ids of particle i+1), in row order `order`"""
+    order = order or list(range(1, len(lists) + 1))
+    return [[i] + list(lists[i - 1]) for i in order]
+
+
+REAL_KINDS = ("float64", "int64", "int32", "float32", "readonly", "strided", "fortran")
+
+
+def crc(*objs):
+    return zlib.crc32(json.dumps(objs, default=str).encode())
+
+
+def render(values, shape, kind):
+    """integer-valued abstract data as an array of the given representation; returns (array, rtol).
+    The values are the same in every representation (float32 carries small integers exactly)."""
+    a = np.array(values, dtype=np.int64).reshape(shape)
+    if kind == "bool":
+        return a.astype(bool), 1e-9
+    if kind in ("int64", "int32"):
+        return a.astype(kind), 1e-9
+    if kind == "float32":
+        return a.astype(np.float32), 2e-6
+    x = a.astype(float)
+    if kind == "readonly":
+        x.setflags(write=False)
+    elif kind == "strided":
+        big = np.full(tuple(2 * n for n in x.shape), 3.25)
+        sl = tuple(slice(None, None, 2) for _ in x.shape)
+        big[sl] = x
+        x = big[sl]
+    elif kind == "fortran":
+        x = np.asfortranarray(x)
+    return x, 1e-9
+
+
+def count_kind(chk, what, kind):
+    k = f"{what}_inputs_rendered_as_{kind}"
+    chk.extra[k] = chk.extra.get(k, 0) + 1
 
 
 def close_arr(obs, exp, atol=1e-9, rtol=1e-9):
@@ -98,18 +143,44 @@ def grid_record(ng, bounds, gp_frame, scale=1):
     return {"op": "grid", "ng": list(ng), "bounds": bounds, "M": M, "obs": obs.tolist(), "exact": int(exact)}
 
 
-def cond_array(rng, F, N, d, rank):
+BLUR_KINDS = ("float64", "float64", "int64", "bool", "float32", "readonly", "strided", "fortran")
+
+
+def cond_array(rng, F, N, d, rank, kind="float64"):
+    """a random particle property [F, N, (d, (d))] in one of the representations a caller may hold it in"""
     shape = (F, N) + (d,) * rank
-    return np.array([rng.uniform(-2, 2) for _ in range(int(np.prod(shape)))]).reshape(shape)
+    n = int(np.prod(shape))
+    if kind == "int64":
+        return np.array([rng.randint(-3, 3) for _ in range(n)], dtype=np.int64).reshape(shape)
+    if kind == "bool":
+        return np.array([rng.randint(0, 1) for _ in range(n)], dtype=bool).reshape(shape)
+    x = np.array([rng.uniform(-2, 2) for _ in range(n)]).reshape(shape)
+    if kind == "float32":
+        return x.astype(np.float32)
+    if kind == "readonly":
+        x.setflags(write=False)
+    elif kind == "strided":
+        big = np.full(tuple(2 * m for m in shape), 9.5)
+        sl = tuple(slice(None, None, 2) for _ in shape)
+        big[sl] = x
+        x = big[sl]
+    elif kind == "fortran":
+        x = np.asfortranarray(x)
+    return x
 
 
-def blur_call(gaussian_blurring, ss, cond, ng, sigma, ppp, cut, outputfile=""):
+def blur_call(gaussian_blurring, ss, cond, ng, sigma, ppp, cut, outputfile="", ngkind=0):
     try:
+        nga = np.array(ng) if ngkind == 0 else np.array(ng, dtype=np.int32)
+        if ngkind == 2:
+            nga.setflags(write=False)
         if sigma == 2.0 and cut == 6.0 and all(ppp) and not outputfile:
-            gp, gv = gaussian_blurring(ss, cond, np.array(ng))        # documented defaults
+            gp, gv = gaussian_blurring(ss, cond, nga)        # documented defaults
         else:
-            gp, gv = gaussian_blurring(ss, cond, np.array(ng), sigma=sigma, ppp=np.array(ppp), gaussian_cut=cut,
-                                       outputfile=outputfile)
+            pa = np.array(ppp)
+            if ngkind == 2:
+                pa.setflags(write=False)
+            gp, gv = gaussian_blurring(ss, cond, nga, sigma=sigma, ppp=pa, gaussian_cut=cut, outputfile=outputfile)
         return np.asarray(gp), np.asarray(gv), None
     except Exception as e:  # the library failing on a valid input is a violation
         return None, None, e
@@ -117,19 +188,21 @@ def blur_call(gaussian_blurring, ss, cond, ng, sigma, ppp, cut, outputfile=""):
 
 def replay_blur(chk, case, lib, rng, trace, ranks, tmp=None):
     gaussian_blurring = lib["gaussian_blurring"]
-    ng, H, bounds = case["ng"], case["H"], case["bounds"]
+    ng, Hs, bs = case["ng"], case["Hs"], case["bs"]
     d, F = len(ng), len(case["pos"])
     N = len(case["pos"][0])
     sigma = case["sig"][0] / case["sig"][1]
     cut = case["cut"][0] / case["cut"][1]
-    ss = snapshots([snapshot(f, case["pos"][f], H, bounds) for f in range(F)])
-    brief = {k: case[k] for k in ("m", "ng", "H", "bounds", "ppp", "pos", "sig", "cut")}
+    # every frame carries its own cell and box bounds
+    ss = snapshots([snapshot(f, case["pos"][f], Hs[f], bs[f]) for f in range(F)])
+    brief = {k: case[k] for k in ("m", "ng", "Hs", "bs", "ppp", "pos", "sig", "cut")}
     P = int(np.prod(ng))
     for rank in ranks:
-        cond = cond_array(rng, F, N, d, rank)
-        gp, gv, err = blur_call(gaussian_blurring, ss, cond, ng, sigma, case["ppp"], cut)
+        kind = BLUR_KINDS[crc(brief, rank) % len(BLUR_KINDS)]
+        cond = cond_array(rng, F, N, d, rank, kind)
+        gp, gv, err = blur_call(gaussian_blurring, ss, cond, ng, sigma, case["ppp"], cut, ngkind=crc(brief) % 3)
         if err is not None:
-            chk.violation(f"raises:{type(err).__name__}", dict(brief, rank=rank, error=str(err), full=case),
+            chk.violation(f"raises:{type(err).__name__}", dict(brief, rank=rank, cond_kind=kind, error=str(err), full=case),
                           finding_key="gaussian_blurring:flat-index")
             return
         if gp.shape != (F, P, d) or gv.shape != (F, P) + (d,) * rank:
@@ -139,10 +212,10 @@ def replay_blur(chk, case, lib, rng, trace, ranks, tmp=None):
         nties = 0
         for f in range(F):
             if rank == ranks[0]:
-                rec = grid_record(ng, bounds, gp[f])
+                rec = grid_record(ng, bs[f], gp[f])
                 rec["ctx"] = dict(brief, frame=f)
                 trace.append(rec)
-            env = {j + 1: cond[f, j] for j in range(N)}
+            env = {j + 1: np.asarray(cond[f, j], dtype=float) for j in range(N)}
             for s in range(P):
                 sl = case["slots"][s]
                 fr = sl["fr"][f]
@@ -161,7 +234,7 @@ def replay_blur(chk, case, lib, rng, trace, ranks, tmp=None):
                         continue
                 bad = {"frame": f, "slot": s, "point": sl["pt"], "observed": np.asarray(gv[f, s]).tolist(),
                        "expected": np.asarray(lo).tolist() if np.ndim(lo) else float(lo), "n_inside": fr["nin"],
-                       "n_on_cutoff": fr["nedge"]}
+                       "n_on_cutoff": fr["nedge"], "cond_kind": kind}
                 break
             if bad:
                 break
@@ -170,6 +243,7 @@ def replay_blur(chk, case, lib, rng, trace, ranks, tmp=None):
         if bad:
             chk.violation("GaussianSum", dict(brief, rank=rank, **bad, full=case), finding_key="gaussian_blurring:flat-index")
             return
+        count_kind(chk, "blur", kind)
     if tmp and sum(ng) % 4 == 0:      # the saved arrays are the returned arrays
         base = os.path.join(tmp, "blur")
         gp2, gv2, err = blur_call(gaussian_blurring, ss, cond, ng, sigma, case["ppp"], cut, outputfile=base)
@@ -181,6 +255,9 @@ def replay_blur(chk, case, lib, rng, trace, ranks, tmp=None):
         if not same:
             chk.violation("BlurOutputFile", dict(brief, error=str(err)))
             return
+    if F > 1 and any(bs[f] != bs[0] for f in range(F)):
+        chk.extra["blur_trajectories_with_bounds_changing_between_frames"] = \
+            chk.extra.get("blur_trajectories_with_bounds_changing_between_frames", 0) + 1
     chk.ok(("blur", str(brief)), sample={"gaussian_blurring": brief, "slots": P, "ranks": list(ranks)})
     chk.extra["blur_slot_values_compared"] = chk.extra.get("blur_slot_values_compared", 0) + P * F * len(ranks)
 
@@ -192,38 +269,46 @@ def replay_blur(chk, case, lib, rng, trace, ranks, tmp=None):
 def replay_spatial(chk, case, lib, tmp):
     spatial_average = lib["spatial_average"]
     F, N, rank, d = case["F"], case["N"], case["rank"], case["d"]
-    prop = np.array(case["prop"], dtype=float).reshape((F, N) + (d,) * rank)
+    shape = (F, N) + (d,) * rank
+    # the representation of the property: 0/1 flags as a bool array, numbers in one of the real kinds
+    kind = "bool" if case["kind"] == "bool" else REAL_KINDS[crc(case["file"], case["nmax"], rank, d) % len(REAL_KINDS)]
+    prop, rtol = render(case["prop"], shape, kind)
     path = os.path.join(tmp, "nb.dat")
-    write_neighbor_file(path, case["file"])
+    write_neighbor_file(path, case["rows"])
     before = prop.copy()
+    small = {k: v for k, v in case.items() if k != "exp"}
+    small["dtype"] = kind
     try:
         if case["nmax"] == 30:
             out = spatial_average(prop, path)            # default Nmax
         else:
             out = spatial_average(prop, path, Nmax=case["nmax"])
     except Exception as e:
-        chk.violation(f"raises:{type(e).__name__}", dict(case, error=str(e)))
+        chk.violation(f"raises:{type(e).__name__}", dict(small, error=str(e), full=case))
         return
     out = np.asarray(out)
-    exp = np.array([[[q[0] / q[1] for q in pi] for pi in fr] for fr in case["exp"]]).reshape(prop.shape)
-    if out.shape != prop.shape:
-        chk.violation("SpatialShape", dict(case, obs_shape=list(out.shape)))
+    exp = np.array([[[q[0] / q[1] for q in pi] for pi in fr] for fr in case["exp"]]).reshape(shape)
+    if out.shape != shape:
+        chk.violation("SpatialShape", dict(small, obs_shape=list(out.shape), full=case))
         return
     if not np.array_equal(prop, before):
-        chk.violation("SpatialInputUnchanged", case)
+        chk.violation("SpatialInputUnchanged", dict(small, full=case))
         return
     for f in range(F):
-        if not close_arr(out[f], exp[f]):
-            chk.violation("SpatialMean", dict(case, frame=f, observed=out[f].tolist(), expected=exp[f].tolist()))
+        if not close_arr(out[f], exp[f], rtol=rtol, atol=rtol):
+            chk.violation("SpatialMean", dict(small, frame=f, observed=out[f].tolist(), expected=exp[f].tolist(), full=case))
             return
     if rank == 0:                     # complex scalars (e.g. order parameters): the same rationals times 1 + 2i
         try:
-            outc = np.asarray(spatial_average(prop * (1 + 2j), path, Nmax=case["nmax"]))
-            okc = close_arr(outc, exp * (1 + 2j))
+            cprop = np.array(case["prop"], dtype=float).reshape(shape) * (1 + 2j)
+            if kind == "float32":
+                cprop = cprop.astype(np.complex64)
+            outc = np.asarray(spatial_average(cprop, path, Nmax=case["nmax"]))
+            okc = close_arr(outc, exp * (1 + 2j), rtol=rtol, atol=rtol)
         except Exception:
             okc = False
         if not okc:
-            chk.violation("SpatialMean(complex)", case)
+            chk.violation("SpatialMean(complex)", dict(small, full=case))
             return
     if (N + F + rank) % 3 == 0:       # the saved array is the returned array
         outp = os.path.join(tmp, "sa_out.npy")
@@ -233,30 +318,54 @@ def replay_spatial(chk, case, lib, tmp):
         except Exception:
             same = False
         if not same:
-            chk.violation("SpatialOutputFile", case)
+            chk.violation("SpatialOutputFile", dict(small, full=case))
             return
-    chk.ok(("spatial", json.dumps(case["file"]), case["nmax"], rank, d), nontrivial=any(len(r) for fr in case["file"] for r in fr),
-           sample={"spatial_average": {k: case[k] for k in ("N", "F", "nmax", "rank", "file")}})
+    count_kind(chk, "spatial", kind)
+    if any([r[0] for r in fr] != sorted(r[0] for r in fr) for fr in case["rows"]):
+        chk.extra["spatial_files_with_rows_out_of_id_order"] = chk.extra.get("spatial_files_with_rows_out_of_id_order", 0) + 1
+    chk.ok(("spatial", json.dumps(case["rows"]), case["nmax"], rank, d, case["kind"]),
+           nontrivial=any(len(r) for fr in case["file"] for r in fr),
+           sample={"spatial_average": {k: case[k] for k in ("N", "F", "nmax", "rank", "rows")}})
 
 
 # --------------------------------------------------------------------------
 # time_average
 # --------------------------------------------------------------------------
 
-def window_inputs(case):
+WINDOW_REAL_KINDS = ("float64", "int64", "int32", "float32", "readonly", "strided", "fortran")
+
+
+def window_inputs(case, kind=None):
+    """returns (snapshots, property array, rtol); kind: representation of the property array"""
     T, N, C = case["T"], case["N"], case["C"]
-    p = np.array(case["prop"], dtype=float)          # [T, N, C]
-    prop = p[:, :, 0] + 1j * p[:, :, 1] if C == 2 else p[:, :, 0]
     ss = snapshots([snapshot(case["ts"][f], [[0.0, 0.0]] * N, [[4, 0], [0, 4]], [[0, 4], [0, 4]]) for f in range(T)])
-    return ss, prop
+    if C == 2:
+        p = np.array(case["prop"], dtype=float)          # [T, N, 2]: real and imaginary part
+        prop = p[:, :, 0] + 1j * p[:, :, 1]
+        if kind == "complex64":
+            return ss, prop.astype(np.complex64), 2e-6
+        return ss, prop, 1e-9
+    vals = [[pi[0] for pi in fr] for fr in case["prop"]]
+    prop, rtol = render(vals, (T, N), kind or "float64")
+    return ss, prop, rtol
+
+
+def window_kind(case):
+    if case.get("kind") == "bool":
+        return "bool"
+    if case["C"] == 2:
+        return ("complex128", "complex128", "complex64")[crc(case["ts"], case["period"]) % 3]
+    return WINDOW_REAL_KINDS[crc(case["ts"], case["period"], case["N"]) % len(WINDOW_REAL_KINDS)]
 
 
 def replay_window(chk, case, lib):
     time_average = lib["time_average"]
-    ss, prop = window_inputs(case)
+    kind = window_kind(case)
+    ss, prop, rtol = window_inputs(case, kind)
     period = case["period"][0] / case["period"][1]
     dt = case["dt"][0] / case["dt"][1]
-    brief = {k: case[k] for k in ("m", "T", "N", "C", "ts", "dt", "period", "w")}
+    brief = {k: case[k] for k in ("m", "T", "N", "C", "kind", "ts", "dt", "period", "w")}
+    brief["dtype"] = kind
     try:
         res, mid = time_average(ss, prop, time_period=period, dt=dt)
     except Exception as e:
@@ -276,9 +385,10 @@ def replay_window(chk, case, lib):
             return
         m = np.array([[q[0] / q[1] for q in pi] for pi in e["mean"]])
         expv = m[:, 0] + 1j * m[:, 1] if case["C"] == 2 else m[:, 0]
-        if not close_arr(res[n], expv):
+        if not close_arr(res[n], expv, rtol=rtol, atol=rtol):
             chk.violation("WindowMean", dict(brief, n=n, expected=str(expv.tolist()), observed=str(res[n].tolist()), full=case))
             return
+    count_kind(chk, "window", kind)
     chk.ok(("window", json.dumps(brief)), sample={"time_average": brief, "rows": rows, "centres": mid.tolist()})
 
 
@@ -307,8 +417,8 @@ def rand_cell(rng, d, S, lmin, lmax, tilt_p=0.5):
 
 
 def gen_blur(rng, lib, ncalls, trace, ctx):
-    """random scaled-integer configurations -> real code; 'grid' records carry the discrete
-    observation, 'blur' records ask the trace spec for the expected terms"""
+    """random scaled-integer trajectories (every frame with its own cell, origin and bounds) -> real code;
+    'grid' records carry the discrete observation, 'blur' records ask the trace spec for the expected terms"""
     pending = {}
     for call in range(ncalls):
         d = rng.choice([2, 2, 3])
@@ -316,59 +426,87 @@ def gen_blur(rng, lib, ncalls, trace, ctx):
         ng = [rng.randint(2, 7 if d == 2 else 5) for _ in range(d)]
         if rng.random() < 0.15:
             ng[rng.randrange(d)] = 1
-        H, bounds, lo = rand_cell(rng, d, S, 3, 8)
         N = rng.randint(4, 14)
-        F = rng.randint(1, 2)
-        pos = [[[lo[k] + rng.randint(-S, H[k][k] + S) for k in range(d)] for _ in range(N)] for _ in range(F)]
+        F = rng.choice([1, 2, 2, 3])
+        cells = [rand_cell(rng, d, S, 3, 8) for _ in range(F)]
+        if F > 1 and rng.random() < 0.2:
+            cells = [cells[0]] * F                     # constant box
+        pos = [[[cells[f][2][k] + rng.randint(-S, cells[f][0][k][k] + S) for k in range(d)] for _ in range(N)] for f in range(F)]
         sig = rng.choice([[1, 2], [1, 1], [3, 2], [2, 1]])
         cut = [rng.randint(2, 8), 2]
         ppp = [rng.randint(0, 1) for _ in range(d)]
         rank = rng.randint(0, 2)
-        cond = cond_array(rng, F, N, d, rank)
-        Hf = (np.array(H, dtype=float) / S).tolist()
-        bf = (np.array(bounds, dtype=float) / S).tolist()
-        ss = snapshots([snapshot(f, (np.array(pos[f], dtype=float) / S).tolist(), Hf, bf) for f in range(F)])
-        gp, gv, err = blur_call(lib["gaussian_blurring"], ss, cond, ng, sig[0] / sig[1], ppp, cut[0] / cut[1])
-        brief = {"ng": ng, "H": H, "bounds": bounds, "S": S, "ppp": ppp, "sig": sig, "cut": cut, "N": N, "rank": rank}
+        kind = rng.choice(BLUR_KINDS)
+        cond = cond_array(rng, F, N, d, rank, kind)
+        ss = snapshots([snapshot(f, (np.array(pos[f], dtype=float) / S).tolist(), (np.array(cells[f][0], dtype=float) / S).tolist(),
+                                 (np.array(cells[f][1], dtype=float) / S).tolist()) for f in range(F)])
+        gp, gv, err = blur_call(lib["gaussian_blurring"], ss, cond, ng, sig[0] / sig[1], ppp, cut[0] / cut[1], ngkind=call % 3)
+        brief = {"ng": ng, "Hs": [c[0] for c in cells], "bs": [c[1] for c in cells], "S": S, "ppp": ppp, "sig": sig, "cut": cut,
+                 "N": N, "rank": rank, "cond_kind": kind}
         if err is not None:
             ctx.append(("raise", f"raises:{type(err).__name__}", dict(brief, pos=pos, error=str(err))))
             continue
         for f in range(F):
+            H, bounds, _ = cells[f]
             g = grid_record(ng, bounds, gp[f], scale=S)
             g["ctx"] = dict(brief, frame=f)
             trace.append(g)
             rid = len(pending) + 1
             trace.append({"op": "blur", "id": rid, "ng": ng, "bounds": bounds, "S": S, "H": H, "ppp": ppp,
                           "pos": pos[f], "sig": sig, "cut": cut, "ctx": dict(brief, frame=f)})
-            pending[rid] = (gv[f], cond[f], dict(brief, pos=pos[f], frame=f))
+            pending[rid] = (gv[f], np.asarray(cond[f], dtype=float), dict(brief, pos=pos[f], frame=f))
     return pending
 
 
-def gen_spatial(rng, lib, ncalls, trace, tmp, ctx):
+def gen_spatial(rng, lib, ncalls, trace, tmp, ctx, chk=None):
     for call in range(ncalls):
-        N = rng.randint(4, 40)
         F = rng.randint(1, 4)
         rank = rng.randint(0, 2)
         d = rng.choice([2, 3])
-        nmax = rng.choice([30, 30, 3, 5])
-        cnmax = rng.randint(1, 7)
-        file = []
-        for f in range(F):
+        long_lists = call % 4 == 3
+        if long_lists:
+            # cut-off style lists with more entries than the default Nmax = 30; counts and Nmax such that
+            # 1 + (delivered count) divides 840 * 31 (the averages of multiples of 26040 are then integers)
+            N = rng.randint(42, 48)
+            cn_choices = [29, 34, 39, 41]
+            nmax = rng.choice([30, 30, 200, 41, 39, 34, 29, 5])          # default, above all, at a count, between, far below
+        else:
+            N = rng.randint(4, 40)
+            cnmax = rng.randint(1, 7)
+            cn_choices = list(range(0, min(cnmax, N - 1) + 1))
+            nmax = rng.choice([30, 30, 3, 5, 1, 7])
+        file, lists = [], []
+        for f in range(F + (1 if rng.random() < 0.2 else 0)):       # the file may hold more frames than the property
             fr = []
             for i in range(N):
-                cn = rng.randint(0, min(cnmax, N - 1))
+                cn = rng.choice(cn_choices)
                 others = [j for j in range(1, N + 1) if j != i + 1]
                 row = rng.sample(others, cn)
                 if cn >= 2 and rng.random() < 0.05:
                     row[1] = row[0]            # a repeated entry counts twice
                 fr.append(row)
-            file.append(fr)
+            order = list(range(1, N + 1))
+            if rng.random() < 0.6:
+                rng.shuffle(order)             # rows of a frame in any order: the id column decides
+            lists.append(fr)
+            file.append(rows_of(fr, order))
         C = d ** rank
-        vals = [[[K * rng.randint(-50, 50) for _ in range(C)] for _ in range(N)] for _ in range(F)]
-        prop = np.array(vals, dtype=float).reshape((F, N) + (d,) * rank)
+        shape = (F, N) + (d,) * rank
+        kind = rng.choice(REAL_KINDS + ("bool",))
+        if long_lists and kind in ("bool", "float32"):
+            kind = "int64"
+        oscale = K if kind == "bool" else 1       # 0/1 flags: the averages are fractions, recorded in units of 1/840
+        if kind == "bool":
+            vals = [[[rng.randint(0, 1) for _ in range(C)] for _ in range(N)] for _ in range(F)]
+        elif long_lists:
+            vals = [[[K * 31 * rng.randint(-20, 20) for _ in range(C)] for _ in range(N)] for _ in range(F)]
+        else:
+            vals = [[[K * rng.randint(-50, 50) for _ in range(C)] for _ in range(N)] for _ in range(F)]
+        prop, _ = render(vals, shape, kind)
         path = os.path.join(tmp, f"nbB{call}.dat")
         write_neighbor_file(path, file)
-        brief = {"N": N, "F": F, "nmax": nmax, "rank": rank, "d": d, "call": call}
+        brief = {"N": N, "F": F, "nmax": nmax, "rank": rank, "d": d, "call": call, "dtype": kind,
+                 "max_cn": max(len(r) for fr in lists for r in fr)}
         try:
             out = np.asarray(lib["spatial_average"](prop, path, Nmax=nmax))
         except Exception as e:
@@ -376,14 +514,22 @@ def gen_spatial(rng, lib, ncalls, trace, tmp, ctx):
             continue
         finally:
             os.unlink(path)
+        if out.shape != shape:
+            ctx.append(("raise", "SpatialShape", dict(brief, obs_shape=list(out.shape))))
+            continue
+        if chk is not None:
+            count_kind(chk, "spatial", kind)
+            if brief["max_cn"] > 30:
+                chk.extra["spatial_calls_with_more_than_30_listed_neighbours"] = \
+                    chk.extra.get("spatial_calls_with_more_than_30_listed_neighbours", 0) + 1
         trace.append({"op": "sa_open", "nmax": nmax, "file": file, "ctx": brief})
         for f in range(F):
-            obs, exact = to_int(out[f].reshape(N, C), 1)
-            trace.append({"op": "sa_frame", "nmax": nmax, "prop": vals[f], "obs": obs.tolist(), "exact": int(exact),
-                          "ctx": dict(brief, frame=f)})
+            obs, exact = to_int(out[f].reshape(N, C), oscale)
+            trace.append({"op": "sa_frame", "nmax": nmax, "prop": vals[f], "obs": obs.tolist(), "oscale": oscale,
+                          "exact": int(exact), "ctx": dict(brief, frame=f)})
 
 
-def gen_window(rng, lib, ncalls, trace, ctx):
+def gen_window(rng, lib, ncalls, trace, ctx, chk=None):
     for call in range(ncalls):
         T = rng.randint(4, 30)
         N = rng.randint(1, 6)
@@ -408,23 +554,37 @@ def gen_window(rng, lib, ncalls, trace, ctx):
             if qf != m8 // 8:
                 ctx.append(("tie", "window-length-float-fragile", None))
                 continue
-        vals = [[[K * rng.randint(-50, 50) for _ in range(C)] for _ in range(N)] for _ in range(T)]
-        case = {"T": T, "N": N, "C": C, "ts": ts, "prop": vals}
-        ss, prop = window_inputs(case)
-        brief = {"T": T, "N": N, "C": C, "ts": ts[:3], "dt": dt, "period": period}
+        boolean = C == 1 and rng.random() < 0.25
+        if boolean:            # 0/1 flags: means are fractions, recorded in units of 1/840 (w <= 8 divides 840)
+            vals = [[[rng.randint(0, 1)] for _ in range(N)] for _ in range(T)]
+        else:
+            vals = [[[K * rng.randint(-50, 50) for _ in range(C)] for _ in range(N)] for _ in range(T)]
+        oscale = K if boolean else 1
+        case = {"T": T, "N": N, "C": C, "ts": ts, "prop": vals, "period": period, "kind": "bool" if boolean else "num"}
+        kind = window_kind(case)
+        ss, prop, _ = window_inputs(case, kind)
+        brief = {"T": T, "N": N, "C": C, "ts": ts[:3], "dt": dt, "period": period, "dtype": kind}
         try:
-            res, mid = lib["time_average"](ss, prop, time_period=period[0] / period[1], dt=dt[0] / dt[1])
+            if dt == [1, 500]:     # the documented default time step
+                res, mid = lib["time_average"](ss, prop, time_period=period[0] / period[1])
+            else:
+                res, mid = lib["time_average"](ss, prop, time_period=period[0] / period[1], dt=dt[0] / dt[1])
         except Exception as e:
             ctx.append(("raise", f"raises:{type(e).__name__}", dict(brief, error=str(e))))
             continue
         res, mid = np.asarray(res), np.asarray(mid)
         rows = int(res.shape[0])
+        if res.ndim != 2 or res.shape[1] != N:
+            ctx.append(("raise", "WindowLength", dict(brief, obs_shape=list(res.shape))))
+            continue
         stacked = np.stack([res.real, res.imag], axis=-1)[:, :, :C] if rows else np.zeros((0, N, C))
-        obs, exact = to_int(stacked, 1)
+        obs, exact = to_int(stacked, oscale)
         if C == 1 and rows and np.any(np.abs(res.imag) > 1e-9):
             exact = False
+        if chk is not None:
+            count_kind(chk, "window", kind)
         trace.append({"op": "window", "T": T, "ts": ts, "dt": dt, "period": period, "prop": vals, "rows": rows,
-                      "centre": [int(x) for x in mid.tolist()], "obs": obs.tolist(), "exact": int(exact),
+                      "centre": [int(x) for x in mid.tolist()], "obs": obs.tolist(), "oscale": oscale, "exact": int(exact),
                       "ctx": dict(brief, rows=rows, centres=[int(x) for x in mid.tolist()][:8])})
 
 
@@ -631,8 +791,8 @@ def run(tier, replay=None):
         traceB, ctx = [], []
         nb, ns, nw = (14, 40, 120) if tier == "quick" else (120, 400, 1500)
         pending = gen_blur(rng, lib, nb, traceB, ctx)
-        gen_spatial(rng, lib, ns, traceB, tmp, ctx)
-        gen_window(rng, lib, nw, traceB, ctx)
+        gen_spatial(rng, lib, ns, traceB, tmp, ctx, chk)
+        gen_window(rng, lib, nw, traceB, ctx, chk)
         for kind, clause, c in ctx:
             if kind == "tie":
                 chk.tie()
